@@ -306,7 +306,10 @@ pub fn gen_report(rng: &mut Rng, idx: usize) -> Case {
     }
     let cat = Rc::new(Cat::new(&specs));
     let cut = rng_cut(rng);
+    // a third of the runs: the reporters sit behind `fail_on_skipped` (Failed(NotFound) steps)
+    crate::fam_pipe::NOTFOUND_MODE.with(|m| m.set(idx != 0 && rng.chance(1, 3)));
     let evs = gen_canonical_stream(rng, &cat, cut);
+    crate::fam_pipe::NOTFOUND_MODE.with(|m| m.set(false));
     let nopath: Vec<usize> = specs.iter().filter(|f| f.path.is_none()).map(|f| f.id).collect();
 
     let run = |w: &mut dyn FnMut(&AEv)| { for e in &evs { w(e); } };
